@@ -64,8 +64,10 @@ class PyRepo:
                     raise AnalysisError(f'{path} does not parse: {e}')
                 from .pynormal import fold_temporaries, worklist_to_recursion, poploop_to_for, eafp_to_lbyl, outline_accessors, \
                     while_true_to_test, inline_local_procedures, loop_to_comprehension, search_loop_to_membership, \
-                    checked_unwrap_to_extract
-                self.drained = getattr(self, 'drained', 0) + poploop_to_for(tree) + eafp_to_lbyl(tree)
+                    checked_unwrap_to_extract, match_to_if, optional_flag_to_test, nest_lifted_helpers, inline_simple_generators, \
+                    extend_by_generator_to_appends
+                self.nested_helpers = getattr(self, 'nested_helpers', 0) + nest_lifted_helpers(tree)
+                self.drained = getattr(self, 'drained', 0) + match_to_if(tree) + optional_flag_to_test(tree) + inline_simple_generators(tree) + extend_by_generator_to_appends(tree) + poploop_to_for(tree) + eafp_to_lbyl(tree)
                 self.inlined_procs = getattr(self, 'inlined_procs', 0) + inline_local_procedures(tree)
                 self.drained += while_true_to_test(tree) + loop_to_comprehension(tree) + checked_unwrap_to_extract(tree)
                 self.folded = getattr(self, 'folded', 0) + fold_temporaries(tree)
@@ -79,8 +81,65 @@ class PyRepo:
         from . import pyeval
         pyeval.register_match_fields({c.name: [n for n, _t in c.fields] for m in self.modules.values() for c in m.classes.values()
                                       if any(d.startswith('dataclass') for d in c.decorators)})
+        self._dissolve_delegating_methods()
         self._specialise_self_dispatch()
         self._pull_down_template_methods()
+
+    def _dissolve_delegating_methods(self) -> None:
+        """A method that is nothing but `return helper(<simple arguments>)` of a module-level function of its own module IS that
+        function's body with the arguments in place of the parameters: the method's body is replaced by it, so that a rule reading
+        `C.m` sees the same code whether the project writes the loop in each class or once in a shared module-level helper.
+        (The helper must not rebind its parameters, recurse, or be a generator; arguments are names / attribute chains / constants.)"""
+        import copy
+        self.dissolved = 0
+
+        def simple(e):
+            while isinstance(e, ast.Attribute):
+                e = e.value
+            return isinstance(e, (ast.Name, ast.Constant))
+
+        for mi in self.modules.values():
+            for c in mi.classes.values():
+                for mname, fn in c.methods.items():
+                    body = [st for st in fn.body if not (isinstance(st, ast.Expr) and isinstance(st.value, ast.Constant))]
+                    if len(body) != 1 or not isinstance(body[0], ast.Return) or not isinstance(body[0].value, ast.Call):
+                        continue
+                    call = body[0].value
+                    if not isinstance(call.func, ast.Name) or call.keywords or not all(simple(a) for a in call.args):
+                        continue
+                    g = mi.functions.get(call.func.id)
+                    if g is None or g.decorator_list or g.args.vararg or g.args.kwarg or g.args.kwonlyargs \
+                            or len(g.args.args) != len(call.args):
+                        continue
+                    params = [a.arg for a in g.args.args]
+                    inner = [n for st in g.body for n in ast.walk(st)]
+                    if any(isinstance(n, (ast.Yield, ast.YieldFrom, ast.FunctionDef, ast.Lambda, ast.Global, ast.Nonlocal)) for n in inner):
+                        continue
+                    if any(isinstance(n, ast.Name) and n.id in params and isinstance(n.ctx, (ast.Store, ast.Del)) for n in inner):
+                        continue
+                    if any(isinstance(n, ast.Name) and n.id == g.name for n in inner):
+                        continue
+                    # the helper's locals must not capture a name the arguments mention
+                    arg_names = {n.id for a in call.args for n in ast.walk(a) if isinstance(n, ast.Name)}
+                    if any(isinstance(n, ast.Name) and isinstance(n.ctx, ast.Store) and n.id in arg_names for n in inner):
+                        continue
+                    sub = dict(zip(params, call.args))
+
+                    class S(ast.NodeTransformer):
+                        def visit_Name(self, node):
+                            if node.id in sub and isinstance(node.ctx, ast.Load):
+                                return ast.copy_location(copy.deepcopy(sub[node.id]), node)
+                            return node
+
+                    new = [S().visit(copy.deepcopy(st)) for st in g.body
+                           if not (isinstance(st, ast.Expr) and isinstance(st.value, ast.Constant))]
+                    for st in new:
+                        for n in ast.walk(st):
+                            if hasattr(n, 'lineno'):
+                                n.lineno = n.end_lineno = fn.lineno + 1
+                        ast.fix_missing_locations(st)
+                    fn.body = new
+                    self.dissolved += 1
 
     def _pull_down_template_methods(self) -> None:
         """An intermediate class that is never instantiated itself - it is not a dataclass, all its direct subclasses are, and no
@@ -477,3 +536,32 @@ def self_method_resolver(py: 'PyRepo', ci: ClassInfo, self_value, exclude: tuple
             return g, ('name', ci.name)
         return g, self_value
     return resolver
+
+
+_ENCL_CACHE: dict = {}
+
+
+def enclosing_def(tree: ast.AST, node: ast.AST):
+    """the innermost function definition that contains `node` (a definition contains itself), by structure - load-time normal
+    forms move code between functions, so source positions do not say where a node lives; for a node that is not part of `tree`
+    (a rule's private copy) the source positions are used.  -> FunctionDef | None"""
+    m = _ENCL_CACHE.get(id(tree))
+    if m is None:
+        m = {}
+        stack = [(tree, None)]
+        while stack:
+            n, f = stack.pop()
+            if isinstance(n, ast.FunctionDef):
+                f = n
+            m[id(n)] = f
+            for c in ast.iter_child_nodes(n):
+                stack.append((c, f))
+        _ENCL_CACHE[id(tree)] = m
+        _ENCL_CACHE[('keep', id(tree))] = tree          # keep the tree alive so the id stays unique
+    if id(node) in m:
+        return m[id(node)]
+    best = None
+    for n in ast.walk(tree):
+        if isinstance(n, ast.FunctionDef) and n.lineno <= getattr(node, 'lineno', -1) <= getattr(n, 'end_lineno', n.lineno):
+            best = n
+    return best
